@@ -213,6 +213,15 @@ def step (toks : List String) : String :=
         | _ => "bad-op"
       | _ => "bad-op"
     | none => "bad-op"
+  | "progl" :: ids :: "|" :: ctoks =>
+    -- a program against a given Next-only enumeration (searchers no document-level model speaks about)
+    let l : Option (List Nat) := if ids == "-" then some [] else (ids.splitOn ",").mapM parseNat
+    match l, parseCalls ctoks with
+    | some l, some calls =>
+      let asc := (l.zip l.tail).all (fun p => decide (p.1 < p.2))
+      if !asc then "ENUM-NOT-ASCENDING"
+      else joinWith "," ((runContract l calls).map (fun o => match o with | some i => toString i | none => "nil"))
+    | _, _ => "bad-op"
   | "prog" :: nd :: rest => match parseNat nd with
     | some nd => match parseDocs nd rest with
       | some (docs, "|" :: qt) =>
